@@ -188,7 +188,7 @@ func twinTransformed(r interp.Result) bool {
 
 // ---- twin programs ---------------------------------------------------------
 
-func push(d []byte) []byte { return sgen.Push(d, 0) }
+func push(d []byte) []byte   { return sgen.Push(d, 0) }
 func pushNum(n int64) []byte { return sgen.Push(interp.EncodeNum(big.NewInt(n)), 0) }
 func cat(parts ...[]byte) []byte {
 	var o []byte
@@ -227,7 +227,9 @@ var makers = []frag{
 	{"2DUP", func(x []byte) []byte { return cat(push(filler[0]), []byte{0x6e, 0x75}) }},
 	{"3DUP", func(x []byte) []byte { return cat(push(filler[0]), push(filler[1]), []byte{0x6f, 0x6d}) }},
 	{"OVER", func(x []byte) []byte { return cat(push(filler[0]), []byte{0x78}) }},
-	{"2OVER", func(x []byte) []byte { return cat(push(filler[0]), push(filler[1]), push(filler[2]), []byte{0x70, 0x75}) }},
+	{"2OVER", func(x []byte) []byte {
+		return cat(push(filler[0]), push(filler[1]), push(filler[2]), []byte{0x70, 0x75})
+	}},
 	{"PICK", func(x []byte) []byte { return cat(push(filler[0]), pushNum(1), []byte{0x79}) }},
 	{"TUCK", func(x []byte) []byte { return cat(push(filler[0]), []byte{0x7c, 0x7d}) }},
 	{"IFDUP", func(x []byte) []byte { return []byte{0x73} }},
@@ -331,7 +333,13 @@ func TestPrograms(t *testing.T) {
 		Gen: func(t *rapid.T) Case {
 			flags := sgen.Flags(t, sgen.FlagPoolNonSig)
 			var p sgen.Program
-			switch rapid.IntRange(0, 5).Draw(t, "level") {
+			switch rapid.IntRange(0, 7).Draw(t, "level") {
+			case 6:
+				p = sgen.P2SHLookalike(t, flags)
+			case 7:
+				lp, lc := sgen.LockTimeProgram(t, flags)
+				inv := rapid.SampledFrom([]int{0, 0, 2}).Draw(t, "invoke")
+				return Case{Prog: libexec.Prog{Unlock: lp.Unlock, Lock: lp.Lock, Flags: uint32(lp.Flags), Ctx: libexec.TxCtx{Version: lc.Version, LockTime: lc.LockTime, Seq: lc.Seq, Amount: 1}, Level: lp.Level}, Invoke: inv}
 			case 0:
 				p = sgen.RandomOps(t, flags, sgen.IsSigOp)
 			case 1:
